@@ -37,7 +37,7 @@ CLSN = 'PrefetchedCourierServer'
 
 
 def run(ctx: Ctx):
-  for r in (r1, r2, r3, r4, r5, r8, r12):
+  for r in (r1, r2, r3, r4, r5, r8, r12, r13, r14):
     ctx.guard(r)
   from mlmverif.props._queue import model as qmodel
   ctx.include('R-C15-6', '"never leaves a request blocked" / "end marker'
@@ -114,6 +114,105 @@ def r12(ctx: Ctx):
   else:
     ctx.ok(rule, fi, 'batch walked in order: yield elements, raise a failure where it stands', lp)
   ctx.floor(rule, 1, max(n, 1))
+
+
+# RPC handlers that do NOT count as "the client is alive and working": one line of reason each
+_NO_REFRESH = {
+    'shutdown': 'ends the server',
+    'stop_prefetch': 'ends an iteration (sent by the master while tearing a task down)',
+    'clear_cache': 'maintenance call, not part of an evaluation or iteration',
+    'cache_info': 'maintenance call, not part of an evaluation or iteration',
+}
+
+
+def r13(ctx: Ctx):
+  rule = 'R-C15-13'
+  ctx.rule(rule, '"a client that repeatedly asks for the next batch receives exactly the generator\'s'
+           ' elements": the server stops itself (and the generator) when it has not heard from a client'
+           ' for auto_shutdown_secs; an iterating client sends no explicit heartbeat — its requests ARE'
+           ' the liveness signal. So every bound RPC handler through which a client drives work'
+           ' (everything in set_up except the table _NO_REFRESH) stores a fresh clock reading into'
+           ' self._last_heartbeat on every path. A handler that forgets it lets the auto-shutdown'
+           ' timer fire under an actively polling client: the iteration ends with "Shutdown'
+           ' requested" after the elements delivered so far')
+  from mlmverif.props import c14
+  bt = c14.bound_table(ctx.repo)
+  n = 0
+  for name, fi in sorted(bt.items()):
+    if name in _NO_REFRESH:
+      ctx.info(rule, fi if not isinstance(fi, str) else ctx.repo.func(CS, 'CourierServer.set_up'),
+               f'{name}: exempt ({_NO_REFRESH[name]})')
+      continue
+    if isinstance(fi, str):
+      raise AnalysisError(f'{rule}: handler of `{name}` not resolved ({fi})')
+    n += 1
+    g = cfgm.cfg_of(fi.node)
+    fresh = lambda nd: isinstance(nd.ast, ast.Assign) and any(is_self_attr(t, '_last_heartbeat') for t in nd.ast.targets) and (
+        'time.time()' in unparse(nd.ast.value))
+    w = g.must_pass(g.entry, [g.exit_ret], fresh, cfgm.only_normal)
+    if w is None:
+      ctx.ok(rule, fi, f'{name}: refreshes the server heartbeat', fi.node)
+    else:
+      ctx.fail(rule, fi, f'{fi.qualname}: the handler of `{name}` refreshes self._last_heartbeat',
+               f'the handler of the RPC `{name}` can return without `self._last_heartbeat = time.time()`: a client'
+               ' that only issues this call (an iterating client polling for batches) does not keep the server'
+               ' alive — run_until_shutdown declares "no ping" and stops the generator under it', node=fi.node)
+  ctx.floor(rule, 4, n)
+
+
+def r14(ctx: Ctx):
+  rule = 'R-C15-14'
+  ctx.rule(rule, '"a generator failure is delivered as that exception": on the client every exception'
+           ' element of a received batch that is not the end marker is RAISED — in'
+           ' CourierClient.async_iterate, from the false edge of the is_stop_iteration test every path'
+           ' reaches `raise <elem>`; a condition can only stand in the way if it is constant-true (a'
+           ' comparison with a freshly constructed exception object compares identities and is always'
+           ' unequal). A real match that skips some failure leaves the client polling a dead generator'
+           ' for ever')
+  fi = ctx.repo.func('utils.courier_utils', 'CourierClient.async_iterate')
+  g = cfgm.cfg_of(fi.node)
+  stops = [nd for nd in g.nodes if nd.kind == 'cond' and any(
+      isinstance(c, ast.Call) and unparse(c.func).split('.')[-1] == 'is_stop_iteration' for c in cfgm.node_exprs(nd))]
+  if not stops:
+    raise AnalysisError(f'{rule}: async_iterate no longer tests batch elements with is_stop_iteration')
+
+  def const_true(t):
+    # X != SomeException(...)  /  not (X == SomeException(...)): identity comparison with a fresh object
+    if isinstance(t, ast.Compare) and len(t.ops) == 1 and isinstance(t.ops[0], ast.NotEq):
+      for side in (t.left, t.comparators[0]):
+        if isinstance(side, ast.Call) and isinstance(side.func, ast.Name) and side.func.id.endswith(('Error', 'Exception')):
+          return True
+    return False
+
+  def edge_ok(a, b, lab):
+    if lab in ('exc', 'close'):
+      return False
+    if a.kind == 'cond' and lab == 'false' and const_true(a.ast):
+      return False
+    return True
+
+  n = 0
+  for st in stops:
+    n += 1
+    is_raise = lambda nd: isinstance(nd.ast, ast.Raise) and nd.ast.exc is not None
+    bad = None
+    for s_, lab in st.succ:
+      if lab != 'false':
+        continue
+      if is_raise(s_):
+        continue
+      loop_heads = [x for x in g.nodes if x.kind == 'for_iter']
+      w = g.must_pass(s_, [g.exit_ret] + loop_heads, is_raise, edge_ok)
+      if w is not None:
+        bad = w
+    if bad:
+      ctx.fail(rule, fi, 'async_iterate: every failure element of a batch is raised',
+               'an exception element that is not the end marker can be passed over without being raised (path: '
+               + ' -> '.join(x_.split(':', 2)[-1][:40] for x_ in bad[-4:]) + '): the server repeats the recorded'
+               ' failure in every later batch, so the client neither yields nor raises nor finishes', node=st.ast)
+    else:
+      ctx.ok(rule, fi, 'non-end-marker exceptions always reach `raise`', st.ast)
+  ctx.floor(rule, 1, n)
 
 
 
@@ -473,6 +572,15 @@ from mlmverif.selfcheck import B, OK  # noqa: E402
 
 _F = 'chainables/courier_server.py'
 VARIANTS = [
+    B('next-batch-does-not-refresh-heartbeat', 'chainables/courier_server.py',
+      '    """Get the next batch from the iterator."""\n    self._last_heartbeat = time.time()\n',
+      '    """Get the next batch from the iterator."""\n', 'R-C15-13'),
+    B('client-skips-already-executing-failure', 'utils/courier_utils.py',
+      "          elif elem != ValueError('generator already executing'):\n            raise elem",
+      "          elif not (isinstance(elem, ValueError) and elem.args == ('generator already executing',)):\n            raise elem", 'R-C15-14'),
+    OK('client-raises-every-failure-plainly', 'utils/courier_utils.py',
+       "          elif elem != ValueError('generator already executing'):\n            raise elem",
+       "          else:\n            raise elem"),
     B('client-raises-batch-tail-first', 'utils/courier_utils.py',
       '        for elem in output_batch:\n          if not isinstance(elem, Exception):\n            yield elem\n            batch_cnt += 1\n            continue\n',
       '        if output_batch and isinstance(tail := output_batch[-1], Exception) and not iter_utils.is_stop_iteration(tail):\n          raise tail\n        for elem in output_batch:\n          if not isinstance(elem, Exception):\n            yield elem\n            batch_cnt += 1\n            continue\n',
